@@ -743,6 +743,11 @@ func executePlannedSelection(eCtx *executionContext, sp *selectionPlan, source i
 		if !ok {
 			continue
 		}
+		if path == nil && eCtx.plan != nil && eCtx.plan.isMutation {
+			// Serial execution: everything a top-level mutation field
+			// deferred is forced before the next field is resolved.
+			resolved = dethunkValueDepthFirst(resolved)
+		}
 		finalResults[fp.responseKey] = resolved
 	}
 	return finalResults
